@@ -71,6 +71,18 @@ pub fn replay(args: &[String]) {
             }
         }
     });
+    tlc_lines(&args[0], "HEXBIG", |rec| {
+        for c in rec.as_array().unwrap() {
+            let n: String = c["n"].as_array().unwrap().iter().map(|d| d.to_string()).collect();
+            let hex = uncps(&c["hex"]);
+            ints += 1;
+            match run1(&base, &format!("e = hex_encode {}\nd = hex_decode {}\nrt = hex_decode ${{e}}\n", n, hex)) {
+                Err(e) => s.mismatch(json!({"kind": "hex", "n": n, "why": e})),
+                Ok(c) => { let g = |k: &str| c.variables.get(k).cloned().unwrap_or_default();
+                    if g("e") != hex || g("d") != n || g("rt") != n { s.mismatch(json!({"kind": "hex", "n": n, "why": format!("hex_encode {:?} (expected {}), hex_decode {:?}, round trip {:?}", g("e"), hex, g("d"), g("rt"))})); } }
+            }
+        }
+    });
     tlc_lines(&args[0], "JSON", |rec| {
         if rec["tree"]["t"] == "null" { return; }   // a null root: nothing is left to encode (open corner)
         trees += 1;
@@ -175,6 +187,16 @@ pub fn record(args: &[String]) {
                 }
             }
             1 => {
+                if r.chance(1, 2) {
+                    let big: u64 = match r.below(4) { 0 => (1u64 << 53) + r.below(64) as u64, 1 => u64::MAX - r.below(64) as u64, _ => r.next() };
+                    let digits = |t: &str| -> Vec<u32> { t.chars().map(|c| c.to_digit(10).unwrap_or(0)).collect() };
+                    match run1(&base, &format!("e = hex_encode {}\nd = hex_decode ${{e}}\n", big)) {
+                        Err(e) => out.rec(&json!({"kind": "hexbig", "n": digits(&big.to_string()), "hex": [], "back": [], "err": e})),
+                        Ok(c) => out.rec(&json!({"kind": "hexbig", "n": digits(&big.to_string()), "hex": cps(c.variables.get("e").map(|x| x.as_str()).unwrap_or("")),
+                                                 "back": digits(c.variables.get("d").map(|x| x.as_str()).unwrap_or("")), "err": ""})),
+                    }
+                    continue;
+                }
                 let nn = match r.below(4) { 0 => r.below(17) as u64, 1 => r.below(70000) as u64, _ => r.next() % 2_000_000_000 };
                 match run1(&base, &format!("e = hex_encode {}\nd = hex_decode ${{e}}\n", nn)) {
                     Err(e) => out.rec(&json!({"kind": "hex", "n": nn, "hex": [], "back": 0, "err": e})),
